@@ -128,6 +128,7 @@ class RecSpecs:
         hs.heap = heap1
         hs.assumptions = []
         hs.sink = None
+        hs.subcache = {}
         sub = Ev(cx, hs, dict(fenv), sf.pkg, None, sf.imports, None, True)
         self.defs[k] = (lambda *a: z3.FreshConst(rsort, 'ph'), heap1.keys, heap1.sorts, True)
         try:
